@@ -99,6 +99,10 @@ class DeclarativeCircuit(IDeclarativeCircuit):
     def add_sub_circuit(self, operation: ICircuitCompositeOperation) -> 'ICircuitCompositeOperation':
         """:return: Added operation. Adds sub-circuit to circuit."""
         reference_transfer_lookup = {operation: self._structure}
+        # Keep the relation of the sub-circuit to an operation that is already part of this circuit
+        reference_node = operation.relation_link.reference_node
+        if reference_node is not None:
+            reference_transfer_lookup[reference_node] = reference_node
         copied_operation: ICircuitCompositeOperation = operation.copy(relation_transfer_lookup=reference_transfer_lookup)
         self._structure.add(copied_operation)
         self._added_operations.append(copied_operation)
